@@ -457,9 +457,33 @@ func (e *Exec) doPrevious(op Op) {
 	if e.store == nil || !e.flag("history") || len(e.history) == 0 {
 		return
 	}
-	e.settle()
-	H := append([]*Node{}, e.history...)
-	ss, err := e.store.Snapshot()
+	// The recorded rounds and the store snapshot must belong together: a
+	// round that completes between the two (idle waker -> empty round ->
+	// compaction) would make the walk look too short or too long.  Take the
+	// pair, and retake it while the store's round counters moved or are
+	// ahead of what the round callback has recorded so far.
+	var H []*Node
+	var ss moss.Snapshot
+	var err error
+	for try := 0; ; try++ {
+		e.settle()
+		p0, c0 := e.storeStat("total_persists"), e.storeStat("total_compactions")+e.storeStat("total_compactions_partial")
+		inSync := p0 == e.histPersists && c0 == e.histCompactions
+		H = append([]*Node{}, e.history...)
+		ss, err = e.store.Snapshot()
+		p1, c1 := e.storeStat("total_persists"), e.storeStat("total_compactions")+e.storeStat("total_compactions_partial")
+		if inSync && p1 == p0 && c1 == c0 && p1 == e.histPersists && c1 == e.histCompactions && len(H) == len(e.history) {
+			break
+		}
+		if ss != nil {
+			ss.Close()
+		}
+		if try >= 20 {
+			e.probe("history-never-settled")
+			return
+		}
+		e.probe("history-pair-retaken")
+	}
 	if err != nil || ss == nil {
 		e.fail("snapshot-error", "Store.Snapshot: %v", err)
 	}
